@@ -42,7 +42,7 @@ META = {
     "level_note": "Trusted: CPython compile/exec, pytest.approx; the corpus module vf/corpus/c20_sut.py.",
 }
 PLAN = {
-    "quick": {"shards": 16, "examples": 10000},
+    "quick": {"shards": 16, "examples": 12000},
     "thorough": {"shards": 16, "examples": 400000, "timeout": 3000},
 }
 
@@ -89,7 +89,7 @@ def _enums() -> st.SearchStrategy:
 
 def _assertable_leaf() -> st.SearchStrategy:
     only_bytes = V.bytess().map(lambda r: {"k": "bytes", "hex": r["hex"]})
-    return V.choice(V.ints(), V.ints(), V.bools(), V.nones(), V.strs(8), V.strs(8), only_bytes, V.complexes(), V.complexes(), _enums(), _enums())
+    return V.choice(V.ints(), V.ints(), V.bools(), V.nones(), V.strs(8), V.strs(8), only_bytes, V.complexes(), V.edge_numbers_of("complex"), _enums(), _enums())
 
 
 def _leaf() -> st.SearchStrategy:
@@ -263,7 +263,7 @@ def evaluate(case: dict[str, Any]) -> Outcome:
                 continue
             try:
                 compiled = compile(code, "<assertion>", "exec")
-            except SyntaxError as exc:
+            except (SyntaxError, ValueError) as exc:  # ValueError: NUL bytes / lone surrogates in the source
                 out.fail(f"compile|{kind}|{leaf}|invalid-syntax", f"case={case!r} assertion={assertion!r} code={code!r}: {exc}")
                 continue
             ns = _export_namespace(module, alias)
